@@ -60,7 +60,7 @@ class Report:
 
     # ------------------------------------------------------------------- record
     def rule(self, rid, text):
-        self.rules[rid] = text
+        self.rules.setdefault(rid, text)
 
     def add(self, rule, fn, node, status, msg, construct=None, path=None):
         if rule not in self.rules:
